@@ -11,7 +11,7 @@ from proto import ET, dec_bools, proj_close_nn, run_driver
 from props.c16 import AFFINE3, polygons, vt
 
 ID = "C18"
-LEAN_FILES = ["Geo/Props/C18.lean"]
+LEAN_FILES = ["Geo/Props/C18.lean", "Geo/Props/C18b.lean"]
 RULE = ("segment x segment in the plane (every pair of lattice segments on the 3x3 grid in the thorough tier: crossing, touching at "
         "endpoints, T-junctions, parallel, collinear overlapping / disjoint), in 3-space (coplanar crossing, skew, parallel), segment x line, "
         "segment x plane; convex and non-convex lattice polygons x transversal lines / segments through vertices, along edges, missing; 3-D "
@@ -97,6 +97,28 @@ def segseg_stream(ctx, n):
         if x is not None:
             triples += [(a, b, x), (c, d, x)]
     mem = on_segment_batch(triples)
+    # the executable model of SegmentTensor.intersect (Geo/Shapes.lean:segIntersect; theorems T18_segIntersect_sound / _complete /
+    # T18_parallel_none) on the same pairs: must agree with the specification-level expectation computed here
+    mres = run_driver([f"m.segintersect {vt([Fr(t) for t in a])} {vt([Fr(t) for t in b])} {vt([Fr(t) for t in c])} {vt([Fr(t) for t in d])}"
+                       for (a, b), (c, d) in pairs])
+    k = 0
+    for idx_, (((a, b), (c, d)), x) in enumerate(zip(pairs, cand)):
+        if a == b or c == d:
+            continue
+        ok_x = x is not None and mem[k] and mem[k + 1]
+        if x is not None:
+            k += 2
+        m = mres[idx_].split(" ")
+        if m[1] == "none":
+            good = not ok_x
+        else:
+            from proto import dec_tens
+            v = [r for r, _ in dec_tens(m[1]).entries]
+            good = ok_x and v[2] != 0 and [v[0] / v[2], v[1] / v[2]] == [Fr(t) for t in x]
+        if not good:
+            ctx.disagree("C18:model-vs-spec:segintersect", f"{a}-{b} x {c}-{d}", str(x) if ok_x else "none", mres[idx_], replay=[mres[idx_]])
+            break
+    ctx.count("model-vs-spec:segintersect", len(pairs))
     k = 0
     for ((a, b), (c, d)), x in zip(pairs, cand):
         if x is None:
